@@ -28,24 +28,13 @@ Proof. intro H. cbn [iterate_g]. unfold bind, check_ctx. rewrite H. reflexivity.
 
 (* the k-th call cancels from inside: the call itself completes *)
 Lemma call_cancels_from_inside f args w :
-  w_cancelled w = false -> w_cancel_at w = Some (w_ncalls w) ->
+  w_cancelled w = false -> w_cancel_at w = Some (w_ncalls w) -> w_fail_at w = None ->
   f = bs "T" ->
   let '(r, w') := call_fn f args w in
   r = Ok (last args VNone) /\ w_cancelled w' = true /\ w_ncalls w' = (w_ncalls w + 1)%N.
 Proof.
-  intros C K ->. unfold call_fn, bind, log, count_call. cbn.
-  rewrite K, N.eqb_refl, Bool.orb_true_r. repeat split.
-Qed.
-
-(* cancellation is monotone: no operation of the world clears the flag *)
-Lemma call_fn_keeps_cancelled f args w :
-  w_cancelled w = true -> w_cancelled (snd (call_fn f args w)) = true.
-Proof.
-  intro C. unfold call_fn, bind, log, count_call, ret, fail, set_cancelled. cbn. rewrite C. cbn.
-  repeat match goal with
-         | |- context [if ?b then _ else _] => destruct b; cbn
-         | |- context [match ?x with _ => _ end] => destruct x; cbn
-         end; try reflexivity.
+  intros C K F ->. unfold call_fn, bind, log, count_call, injected_failure. cbn.
+  rewrite K, F, N.eqb_refl, Bool.orb_true_r. repeat split.
 Qed.
 
 (* ---------- WAITFOR *)
